@@ -34,9 +34,9 @@ func suiteCollection(r *Rng, n int, thorough bool, o *Out) {
 		for _, nm := range names {
 			switch r.IntN(4) {
 			case 0:
-				_ = t.AddAttr(jsonapi.Attr{Name: nm, Type: kinds[r.IntN(len(kinds))], Nullable: r.bool()})
+				putAttr(&t, jsonapi.Attr{Name: nm, Type: kinds[r.IntN(len(kinds))], Nullable: r.bool()})
 			case 1:
-				_ = t.AddRel(jsonapi.Rel{FromType: name, FromName: nm, ToOne: r.bool(), ToType: "t"})
+				putRel(&t, jsonapi.Rel{FromType: name, FromName: nm, ToOne: r.bool(), ToType: "t"})
 			}
 		}
 		return t
